@@ -135,6 +135,7 @@ func c14Gen(r *verifh.Rng) []verifh.Section {
 	}
 	secs = append(secs, verifh.Section{Cfg: "via=onconn accept=none rec=0", Ops: verifc14.Exhaustive("ctx", exLen)})
 	secs = append(secs, verifh.Section{Cfg: "via=named accept=user rec=1", Ops: verifc14.Exhaustive("plain", verifh.Scale(2, 4))})
+	secs = append(secs, verifh.Section{Cfg: "via=named accept=none rec=1", Ops: verifc14.Exhaustive("ctx", verifh.Scale(1, 3))})
 	nsec := verifh.Scale(80, 1500)
 	for i := 0; i < nsec; i++ {
 		via := "fromdb"
